@@ -20,7 +20,8 @@ or loaded before.  The checks therefore never present the code under test with a
   than the buffers, half precision, a tensor of the wrong rank, a one-pixel input, and their combinations - every
   exception is swallowed, as a caller's try / except would) before the call under test; the instance switched to
   `eval()` mode for good; the call under test made inside a `torch.autocast('cpu')` region when all its tensors and the
-  buffers are float64 (autocast does not touch float64).
+  buffers are float64 (autocast does not touch float64).  Round 11: the call under test is made on a pickle round trip or a
+  `copy.deepcopy` of the instance.
 
 None of these steps may change the result of the call under test; if one does, the correspondence or
 the oracle that issued the call reports the difference with that call as the failing input.
@@ -195,7 +196,7 @@ def _recipe(name, args):
     v = int.from_bytes(h.digest()[:8], 'big')
     if (v & 0xFFFF) / 65536.0 >= STATE['p']:
         return 0
-    return ((v >> 16) & 0x1FFF) or 1
+    return ((v >> 16) & 0x7FFF) or 1
 
 
 def _single(args):
@@ -355,14 +356,30 @@ def _season_class(cls):
                     _history(self, lambda m, a: orig(m, *a), args, bits)
                 finally:
                     _bump(-1)
+        target = self
+        if bits & 0x6000:
+            # the call under test is made on a COPY of the instance that went through serialisation (pickle: what torch.save(module)
+            # and DataLoader workers do) or copy.deepcopy (a model cloned for an EMA / a second optimiser): a module is its state
+            try:
+                if bits & 0x2000:
+                    import pickle
+                    target = pickle.loads(pickle.dumps(self))
+                    STATS['call_on_pickle_round_trip'] += 1
+                else:
+                    target = copy.deepcopy(self)
+                    STATS['call_on_deepcopy'] += 1
+                target.__dict__['_vp_called'] = True
+            except Exception:
+                target = self
+                STATS['copy_of_instance_failed'] += 1
         if bits & 0x1000 and _all_f64(self, args):
             # float64 is not eligible for autocast: the region must change nothing
             import torch
             STATS['call_in_autocast_region'] += 1
             with torch.autocast('cpu', dtype=torch.bfloat16):
-                out = orig(self, *args, **kw)
+                out = orig(target, *args, **kw)
         else:
-            out = orig(self, *args, **kw)
+            out = orig(target, *args, **kw)
         if bits & 0x300:
             # AFTER the call under test: the same instance (and a fresh twin) transform other data of the same
             # shape.  What the first call returned must not change (no shared output workspace).
